@@ -1,22 +1,109 @@
-/* qmtp_template.h - template family for qmail-qmtpd (DESIGN C07 "Bounds"): a concrete valid
- * message and sender, then a recipients section whose length digits, separators, first and
- * last payload byte and terminators are symbolic around L concrete filler bytes:
+/* qmtp_template.h - template families for qmail-qmtpd (DESIGN C07 "Bounds"): a concrete,
+ * valid frame with the symbolic bytes placed where the decisions are made.  The claim of a
+ * template query covers exactly the connections that match its template (all values of the
+ * symbolic bytes '?').
  *
- *   "1:\n,"  "0:,"  D D S  D D S  P a...a P  T T            D,S,P,T symbolic (<= 10 bytes)
- *
- * e.g. "13:" "10:" "xaaaaaaaay" ",," (one 10-byte recipient), or - the malformed inner
- * length of the 2022 getlen() fix - "14:" ";:" "<11 bytes>" ",,".  The claim of a template
- * query covers exactly the inputs that match its template. */
-#ifndef L
-#define L 0
+ * TEMPLATE 1, filler TL:   1:\n,  0:,  ???  ???  ? a..a ?  ??
+ *     recipients section: two length fields with their separators, first and last payload
+ *     byte and both terminators symbolic (<= 10 bytes) around TL-2 filler bytes; contains
+ *     e.g. "13:" "10:" "xaaaaaaaay" ",," and - the malformed inner length behind the fix
+ *     ca6f55f - "14:" ";:" "<11 bytes>" ",,"  (TL = 10).
+ * TEMPLATE 2, TB:          TB:  ?*TB  ,  1:s,  3:0:,,
+ *     message: mode byte and TB-1 body bytes symbolic (CR LF decoding, databytes).
+ * TEMPLATE 3, TS:          1:\n,  ??  ?*TS  ?  5:2:rc,,
+ *     sender: length digit, separator, TS bytes and terminator symbolic (NUL in the sender).
+ * TEMPLATE 4:             1:\n,  0:,  8:  1:?,  1:?,  ,
+ *     two one-byte recipients (NUL or not), independent rcpthosts verdicts: reply order.
+ * TEMPLATE 5, AL:         1:\n,  0:,  BIG:  AL:  ? a..a ?  ,  ,
+ *     one recipient of AL = 997..1000 bytes (first and last byte symbolic): the 1000-byte
+ *     limit, with and without the 2-byte RELAYCLIENT suffix.
+ * TEMPLATE 6, AL:         1:\n,  AL:  ? a..a ?  ,  3:0:,,
+ *     sender of AL = 999, 1000 bytes. */
+#if TEMPLATE == 1
+#ifndef TL
+#define TL 0
 #endif
-#define N (15 + L)
+#define N (15 + TL)
 static void template_fill(unsigned char *b)
 {
   unsigned int p = 0, i;
   b[p++] = '1'; b[p++] = ':'; b[p++] = '\n'; b[p++] = ',';
   b[p++] = '0'; b[p++] = ':'; b[p++] = ',';
   p += 6;                                   /* two length fields with their separators */
-  for (i = 0; i < L; ++i) { if (i != 0 && i != L - 1) b[p] = 'a'; ++p; }
+  for (i = 0; i < TL; ++i) { if (i != 0 && i != TL - 1) b[p] = 'a'; ++p; }
   p += 2;                                   /* terminators */
 }
+#elif TEMPLATE == 2
+#ifndef TB
+#define TB 3
+#endif
+#define N (TB + 13)
+static void template_fill(unsigned char *b)
+{
+  unsigned int p = 0;
+  b[p++] = '0' + TB; b[p++] = ':';
+  p += TB;
+  b[p++] = ',';
+  b[p++] = '1'; b[p++] = ':'; b[p++] = 's'; b[p++] = ',';
+  b[p++] = '3'; b[p++] = ':'; b[p++] = '0'; b[p++] = ':'; b[p++] = ','; b[p++] = ',';
+}
+#elif TEMPLATE == 3
+#ifndef TS
+#define TS 2
+#endif
+#define N (TS + 15)
+static void template_fill(unsigned char *b)
+{
+  unsigned int p = 0;
+  b[p++] = '1'; b[p++] = ':'; b[p++] = '\n'; b[p++] = ',';
+  p += 2 + TS + 1;
+  b[p++] = '5'; b[p++] = ':'; b[p++] = '2'; b[p++] = ':'; b[p++] = 'r'; b[p++] = 'c'; b[p++] = ','; b[p++] = ',';
+}
+#elif TEMPLATE == 4
+#define N 18
+static void template_fill(unsigned char *b)
+{
+  static const char t[] = "1:\n,0:,8:1:?,1:?,,";
+  unsigned int p;
+  for (p = 0; p < N; ++p) if (t[p] != '?') b[p] = (unsigned char) t[p];
+}
+#elif TEMPLATE == 5 || TEMPLATE == 6
+#ifndef AL
+#define AL 1000
+#endif
+#define MAXR 2                              /* the frame is concrete: one recipient */
+#define DIGITS(x) ((x) >= 1000 ? 4 : (x) >= 100 ? 3 : (x) >= 10 ? 2 : 1)
+static unsigned int put_num(unsigned char *b, unsigned int p, unsigned int x)
+{
+  if (x >= 1000) b[p++] = '0' + (x / 1000) % 10;
+  if (x >= 100) b[p++] = '0' + (x / 100) % 10;
+  if (x >= 10) b[p++] = '0' + (x / 10) % 10;
+  b[p++] = '0' + x % 10;
+  return p;
+}
+#if TEMPLATE == 5
+#define BIG (DIGITS(AL) + 1 + AL + 1)
+#define N (7 + DIGITS(BIG) + 1 + BIG + 1)
+static void template_fill(unsigned char *b)
+{
+  unsigned int p = 0, i;
+  b[p++] = '1'; b[p++] = ':'; b[p++] = '\n'; b[p++] = ',';
+  b[p++] = '0'; b[p++] = ':'; b[p++] = ',';
+  p = put_num(b, p, BIG); b[p++] = ':';
+  p = put_num(b, p, AL); b[p++] = ':';
+  for (i = 0; i < AL; ++i) { if (i != 0 && i != AL - 1) b[p] = 'a'; ++p; }
+  b[p++] = ','; b[p++] = ',';
+}
+#else
+#define N (4 + DIGITS(AL) + 1 + AL + 1 + 6)
+static void template_fill(unsigned char *b)
+{
+  unsigned int p = 0, i;
+  b[p++] = '1'; b[p++] = ':'; b[p++] = '\n'; b[p++] = ',';
+  p = put_num(b, p, AL); b[p++] = ':';
+  for (i = 0; i < AL; ++i) { if (i != 0 && i != AL - 1) b[p] = 'a'; ++p; }
+  b[p++] = ',';
+  b[p++] = '3'; b[p++] = ':'; b[p++] = '0'; b[p++] = ':'; b[p++] = ','; b[p++] = ',';
+}
+#endif
+#endif
